@@ -220,6 +220,9 @@ def run(tier: str, seed: int) -> int:
                         counter += 1
                         desc.append(f"{h['op']}({h['arg']!r})" if h["arg"] != "" else h["op"])
                         want = hists.get(k[:j + 1])
+                        source, source_state = None, None
+                        if h["op"] in ("dask_set_geometry", "dask_subset", "dask_filter", "dask_map_identity") or (h["op"] == "set_geometry" and counter % 2):
+                            source, source_state = obj, project(obj)     # deriving a frame must leave the frame it was derived from as it was
                         try:
                             obj = apply(obj, h, tmp, counter)
                         except Exception as ex:  # noqa: BLE001
@@ -231,6 +234,12 @@ def run(tier: str, seed: int) -> int:
                             break
                         chk.count()
                         got = project(obj)
+                        if source is not None and source is not obj:
+                            again = project(source)
+                            if again != source_state:
+                                chk.violation(f"{colsname}|{h['op']}|source-changed", " ; ".join(desc) + f"\n  deriving the new frame changed the frame it was derived from: "
+                                              f"{source_state} -> {again}", "# " + " ; ".join(desc), ctx=dict(site=h["op"], mode="source-changed", layout=colsname))
+                                break
                         if want is None:
                             continue
                         ok, why = conforms(got, want, obj, cols)
